@@ -70,7 +70,23 @@ pub fn fields_c03(_ctx: &Ctx, b: &Board, o: &mut Map<String, Value>) {
     for m in legal::gen_all(b).iter() {
         let r = std::panic::catch_unwind(|| b.make_move(*m));
         match r {
-            Ok(Ok(nb)) => succ.push(json!({"m": mv_json(*m), "res": "ok", "pos": raw_json(nb.raw())})),
+            Ok(Ok(nb)) => {
+                // the other ways of applying a legal move must give the very same board (full projection)
+                let want = crate::session::state_json(&nb);
+                let same = std::panic::catch_unwind(|| {
+                    use owlchess::moves::make::{TryUnchecked, Unchecked};
+                    use owlchess::moves::Make;
+                    let a = unsafe { Unchecked::new(*m) }.make(b).map(|x| crate::session::state_json(&x) == want).unwrap_or(false);
+                    let t = unsafe { TryUnchecked::new(*m) }.make(b).map(|x| crate::session::state_json(&x) == want).unwrap_or(false);
+                    let mut c = b.clone();
+                    let r = m.make_raw(&mut c).is_ok() && crate::session::state_json(&c) == want;
+                    let mut d = b.clone();
+                    let r2 = unsafe { TryUnchecked::new(*m) }.make_raw(&mut d).is_ok() && crate::session::state_json(&d) == want;
+                    a && t && r && r2 && m.uci().make(b).map(|x| crate::session::state_json(&x) == want).unwrap_or(false)
+                })
+                .unwrap_or(false);
+                succ.push(json!({"m": mv_json(*m), "res": "ok", "pos": raw_json(nb.raw()), "same_by_other_appliers": same}))
+            }
             Ok(Err(_)) => succ.push(json!({"m": mv_json(*m), "res": "err"})),
             Err(_) => succ.push(json!({"m": mv_json(*m), "res": "panic"})),
         }
